@@ -6,7 +6,7 @@
   Statements about `Sio.Server.step` / `run` for every decoder, configuration, registry and
   script, from every well-formed state (`Server.WF`, an invariant of all reachable states).
 -/
-import Sio.Lemmas.ServerEvent
+import Sio.Lemmas.ServerOnce
 namespace Sio.C05
 open Sio Sio.Server Sio.Rooms
 
@@ -43,6 +43,7 @@ def dec0 : Str → Except Err (Packet × Nat)
   | ['c'] => .ok (⟨CONNECT, none, none, none⟩, 0)
   | ['e'] => .ok (⟨EVENT, none, some 3, some (.arr [.str ['e', 'v'], .int 1])⟩, 0)
   | ['h'] => .ok (⟨BINARY_EVENT, none, none, some (.arr [.str ['e', 'v'], placeholder 0])⟩, 1)
+  | ['u'] => .ok (⟨EVENT, none, some 4, some (.arr [.arr [], .int 1])⟩, 0)
   | _ => .error .valueError
 def tA : Eio := ['A']
 def tB : Eio := ['B']
@@ -113,6 +114,34 @@ theorem invoke_none_on_error {s s₀ : Srv} (h : Server.WF s) {t : Eio} {v : J} 
     handleEvent_connected hw0 cfg id (by rw [hr0]; exact hs) (first := ev) (rest := args) rfl]
   simp only [hsync, Bool.false_eq_true, if_false]
   exact runHandler_error cfg s₀ _ hr
+
+example : resolve cfg0.reg nsRoot (.arr []) [.str (sidName 0), .int 1] = .error .typeError := rfl
+example : (step dec0 cfg0 demo0 (.frame tA (.str ['u']))).2 = [.raised .typeError] := by rfl
+
+/-- With `async_handlers = True` the frame itself outputs nothing: exactly one background handler
+    is queued (sid, transport, event, arguments, namespace, id), behind those already queued. -/
+theorem invoke_queued {s s₀ : Srv} (h : Server.WF s) {t : Eio} {v : J} {nsp : Option Str}
+    {id : Option Nat} {ev : J} {args : List J} {sid : Sid}
+    (hc : CompletesEvent dec s t v nsp id (some (.arr (ev :: args))) s₀)
+    (hs : sidOf s.rooms (nsp.getD ['/']) t = some sid) (hasync : cfg.asyncHandlers = true) :
+    step dec cfg s (.frame t v) =
+      ({ s₀ with bg := s₀.bg ++ [⟨sid, t, ev, args, nsp.getD ['/'], id⟩] }, []) := by
+  obtain ⟨hw0, hr0, _⟩ := hc.wf h
+  rw [step_of_completesEvent hc,
+    handleEvent_connected hw0 cfg id (by rw [hr0]; exact hs) (first := ev) (rest := args) rfl]
+  simp only [hasync, if_true]
+
+/-- … and `settle` (the background tasks run) handles the queue front to back: the first queued
+    event's handler output comes first, the rest follows from the state it leaves. -/
+theorem settle_in_order {s : Srv} {b : Bg} {rest : List Bg} (hb : s.bg = b :: rest) :
+    step dec cfg s .settle =
+      ((step.drain cfg (runHandler cfg { s with bg := [] } b).1 [] rest).1,
+        (runHandler cfg { s with bg := [] } b).2 ++
+          (step.drain cfg (runHandler cfg { s with bg := [] } b).1 [] rest).2) := by
+  rw [step, hb]
+  unfold step.drain
+  rw [drain_outs_eq]
+  simp
 
 /-- An EVENT on a namespace the transport is not connected to: no output at all, the state is
     unchanged (a completed binary packet leaves the buffer). -/
